@@ -71,6 +71,20 @@ def main():
                  kind_free_text="explicit-state BFS over operation histories "
                  "and bounded-exhaustive input enumeration on the real code "
                  "under ASan, against reference models"),
+            dict(name="appx", path="harness/c20_apps.py",
+                 serves_properties=["C20"] if "C20" in props.PROPS else [],
+                 kind_free_text="bounded-exhaustive input x algorithm-variant "
+                 "x thread-count enumeration over the real application "
+                 "binaries (built with CMake from the working tree) against "
+                 "independent Python references; schedules uncontrolled"),
+            dict(name="mpix", path="harness/e4_driver.py",
+                 serves_properties=sorted(
+                     k for k in ("C18", "C19") if k in props.PROPS),
+                 kind_free_text="bounded-exhaustive graph x policy x option "
+                 "x host-count enumeration on the real CuSP / Gluon code "
+                 "over real MPI processes (mpirun -np 1..4), structural "
+                 "oracle computed from the input; arrival order "
+                 "uncontrolled"),
         ],
         checks=checks,
         not_applicable=na,
